@@ -421,7 +421,7 @@ def check_C11(chk):
     tmp = os.path.join(C.BUILD, "tmp", "res-%d" % os.getpid())
     os.makedirs(tmp, exist_ok=True)
     names = ["connect_missing", "server_unused", "server_cycle", "connect_after_accept", "shm_cycle", "set_cycle", "send_closed_att",
-             "undecoded_drop", "server_bad_tmpdir", "router_cycle", "ser_fail_att"]
+             "undecoded_drop", "server_bad_tmpdir", "router_cycle", "ser_fail_att", "connect_long", "server_noshow", "server_bad_first"]
     for fl in ("default", "memfd"):
         recs, trace, rc, err = C.run_harness(bins[fl], "res", ["scen name=%s n=%d" % (s, n) for s in names] + ["inherit"],
                                              env_extra={"TMPDIR": tmp}, timeout=900)
